@@ -29,7 +29,8 @@ ROOT = Path(__file__).resolve().parent.parent.parent
 KEY = "kopfexamples/ns/a"
 
 THEOREMS = [("Kopf.Props.X01", "Kopf.X01." + n) for n in [
-    "reactor_refines_loop", "reactor_iter_refines", "reactor_converges", "no_stale_handling_step_partial",
+    "reactor_refines_loop", "clockFwd_of_wf", "reactor_iter_refines", "reactor_converges", "no_stale_handling",
+    "no_stale_handling_created", "no_stale_handling_step_partial",
 ]]
 
 
@@ -140,11 +141,17 @@ def abstract(sc: dict, tr: dict) -> dict:
     # who made each version
     writer: dict[str, int] = {}
     per_cycle_reqs: dict[int, int] = {}
+    first_applied: dict[int, float] = {}
+    answered: dict[int, int] = {}
     for q in tr["requests"]:
         if q.get("method") == "PATCH" and "/kopfexamples/" in q.get("path", "") and q.get("cycle") is not None:
             per_cycle_reqs[q["cycle"]] = per_cycle_reqs.get(q["cycle"], 0) + 1
+            if q.get("t_applied") is not None:
+                first_applied.setdefault(q["cycle"], q["t_applied"])
+            if q.get("applied_rv") is not None and str(q["applied_rv"]).isdigit():
+                answered.setdefault(q["cycle"], int(q["applied_rv"]))
             arv = q.get("applied_rv")
-            if arv is not None and str(arv) in rank and abs(deliv[str(arv)]["t_emit"] - q["t_applied"]) < 1e-9 \
+            if arv is not None and str(arv) in rank and deliv[str(arv)].get("own") and abs(deliv[str(arv)]["t_emit"] - q["t_applied"]) < 1e-9 \
                     and isinstance(q.get("response"), int) and q["response"] < 300:
                 if str(arv) in writer and writer[str(arv)] != q["cycle"]:
                     raise Skip("version-claimed-twice")
@@ -263,7 +270,15 @@ def abstract(sc: dict, tr: dict) -> dict:
                 raise Skip("writer-cycle-not-found")
         else:
             t_f = deliv[rv]["t_emit"]
-            while pending and pending[0]["i"] not in wrote and pending[0]["loop_t0"] + (pending[0]["t1"] - pending[0]["t0"]) < t_f:
+            # a cycle without a version of its own goes before this foreign write iff it was over before it — or, when it
+            # sent a PATCH that changed nothing, iff the server served that PATCH before (it is answered with the version held THEN)
+            def before(c: dict) -> bool:
+                if c["i"] in answered:
+                    return answered[c["i"]] < int(rv)          # answered with a version older than this foreign one
+                if c["i"] in first_applied:
+                    return first_applied[c["i"]] <= t_f
+                return c["loop_t0"] + (c["t1"] - c["t0"]) < t_f
+            while pending and pending[0]["i"] not in wrote and before(pending[0]):
                 emit_cycle(pending.pop(0), cur)
             cur = v["body"]
             acts.append({"foreign": [ess_id(cur), lt(deliv[rv]["t_emit"] + deliv[rv]["delay"])]})
@@ -385,7 +400,7 @@ KEYS = ("ver", "now", "given", "held", "entered", "invoked", "patched", "P", "ba
 def run_reactor(ctx: Any, traces: list[dict] | None = None, n: int | None = None) -> None:
     """THE TIE. `traces`: what `simulate()` returns (default: `n` generated scenarios, seeded from ctx.rng)."""
     if traces is None:
-        n = n if n is not None else ctx.budget(120, 3000)
+        n = n if n is not None else ctx.budget(24, 1500)
         base = ctx.rng.randrange(1 << 30)
         traces = simulate([gen_scenario(random.Random(f"x01-{base}-{i}"), base + i) for i in range(n)])
     batch = []
@@ -431,12 +446,15 @@ def run_reactor(ctx: Any, traces: list[dict] | None = None, n: int | None = None
             ctx.case(key={"held": held, "given": im["given"] is not None, "entered": im["entered"], "stale": m["stale"],
                           "patched": im["patched"] is not None, "inv": len(im["invoked"]), "base": im["base"], "sleep": im["_sleep"]},
                      nontrivial=held or im["given"] is not None or im["patched"] is not None)
-            if m["stale"] and not held and im["entered"] and im["patched"] is None and m["patched"] is not None \
-                    and im["writes"] >= 1 and {k2: real[k2] for k2 in KEYS if k2 != "patched"} == {k2: model[k2] for k2 in KEYS if k2 != "patched"}:
-                # GLUE 2, stated limit of the model: the changing stage ran on a STALE view (the barrier's timeout was over) and
-                # its PATCH changed nothing on the server (the same content had been written already): no version was made;
-                # the model counts one. The rest of this history is not compared.
-                ctx.count("x01_model_limit", "stale view processed after the timeout, its PATCH was a server-side no-op: history cut here")
+            if m["stale"] and not held and im["entered"] and im["patched"] is None and im["writes"] >= 1:
+                # GLUE 2: the changing stage ran on a STALE view and its PATCH changed nothing on the server: no version
+                ctx.count("x01_view", "stale view processed, its PATCH was a server-side no-op (no version made)")
+            if m["stale"] and not held and im["entered"] and im["patched"] is not None and m["patched"] is None and im["invoked"] \
+                    and {k2: real[k2] for k2 in KEYS if k2 != "patched"} == {k2: model[k2] for k2 in KEYS if k2 != "patched"}:
+                # stated limit of C02's record abstraction (`Rec` has no `stopped` timestamp): a handler re-run on a stale view
+                # after the timeout writes a record that differs from the stored one in that field only — the server makes a
+                # version, the model sees a no-op. The rest of this history is not compared.
+                ctx.count("x01_model_limit", "re-run on a stale view: record differs in a field C02.Rec does not carry (stopped): history cut here")
                 break
             if not ctx.compare("X01 composed worker iteration (view version, time, barrier decision, invocations, version "
                                "returned, object/memory after)", real, model, rep):
